@@ -10,11 +10,11 @@ BASE = dict(
     Fam='<- MCFam', ListenFam='<- MCListenFam', Strict='FALSE', ReqFams='{0}',
     ChanNums='{16384, 16385}', LifeReqs='<- MCLifeAbsent', Txids='{"t1"}', Pays='{"p"}',
     Lens='<- MCLenSmall', InboundMTU='1600', PermSeqs='<- MCPermSeqs1',
-    DefaultLife='5', PermTO='2', ChanTO='3', MaxLife='3600', Denied='<- MCNoDenied', Toks='{"none"}', ResvTO='30', QuotaDenied='{}', MaxDepth='6',
+    DefaultLife='5', PermTO='2', ChanTO='3', MaxLife='3600', Denied='<- MCNoDenied', Vetoable='{}', Toks='{"none"}', ResvTO='30', QuotaDenied='{}', MaxDepth='6',
 )
 
 INVS = "TypeOK C01_NeverInstalled NoOrphans C08_Bijection C08_Range C19_ReservedOnce"
-PROPS = ("C01_OnlyAuthorised C02_OnlyPermitted C04_Isolation C05_WithinLimitsDelivered C06_Exact "
+PROPS = ("C01_OnlyAuthorised C01_AskedEveryTime C02_OnlyPermitted C04_Isolation C05_WithinLimitsDelivered C06_Exact "
          "C07_FullRestart C08_Conflict400 C19_SecondAllocate C19_TokenNeedsReservation")
 
 CFGS = {
@@ -49,6 +49,8 @@ CFGS = {
                       Clients='{"c1", "s1"}', PeerIPs='{"A"}', PeerPorts='{1}', ChanNums='{16384}', LifeReqs='<- MCLifeAbsent0', MaxDepth='6'),
     "MC_stream2": dict(kind="mc", doc="two stream clients with the same IP and port on two stream listeners (5-tuples differ in the server address only); either connection closes",
                        Clients='{"s1", "sx"}', PeerIPs='{"A"}', PeerPorts='{1}', ChanNums='{16384}', LifeReqs='<- MCLifeAbsent0', MaxDepth='6'),
+    "MC_veto": dict(kind="mc", doc="the operator's verdict about (c1, A) changes at run time: installed entries live out their time, refreshes are refused",
+                    PeerIPs='{"A", "B"}', PeerPorts='{1}', ChanNums='{16384}', PermSeqs='<- MCPermSeqs1', Vetoable='<- MCVetoable', MaxDepth='8'),
     # ---- Engine A generation slices (every edge printed) ----------------------------------
     "GEN_relayA": dict(kind="gen", doc="one client: permissions, channels, both data paths, expiry (perm 2, chan 3, life 5)",
                        PermSeqs='<- MCPermSeqsAB', MaxDepth='6'),
@@ -85,6 +87,8 @@ CFGS = {
                        Clients='{"c1", "s1"}', PeerIPs='{"A"}', PeerPorts='{1}', ChanNums='{16384}', LifeReqs='<- MCLifeAbsent0', MaxDepth='5'),
     "GEN_stream2": dict(kind="gen", doc="two stream clients with the same IP and port on two stream listeners; either connection closes",
                         Clients='{"s1", "sx"}', PeerIPs='{"A"}', PeerPorts='{1}', ChanNums='{16384}', LifeReqs='<- MCLifeAbsent0', MaxDepth='5'),
+    "GEN_veto": dict(kind="gen", doc="the operator's verdict about (c1, A) changes at run time (a block list behind the PermissionHandler)",
+                     PeerIPs='{"A", "B"}', PeerPorts='{1}', ChanNums='{16384}', PermSeqs='<- MCPermSeqs1', Vetoable='<- MCVetoable', MaxDepth='6'),
     "GEN_chan3": dict(kind="gen", doc="three channel numbers bound at different times: a binding that is not the newest expires while the others live on",
                       PeerIPs='{"A"}', PeerPorts='{1, 2, 3}', ChanNums='{16384, 16385, 16386}', PermSeqs='<- MCPermSeqs1', LifeReqs='<- MCLifeAbsent',
                       DefaultLife='9', PermTO='4', ChanTO='4', MaxDepth='8'),
@@ -97,7 +101,7 @@ CFGS = {
 }
 
 ORDER = ["Clients", "Users", "PeerIPs", "PeerPorts", "Fam", "ListenFam", "Strict", "ReqFams", "ChanNums", "LifeReqs",
-         "Txids", "Pays", "Lens", "InboundMTU", "PermSeqs", "DefaultLife", "PermTO", "ChanTO", "MaxLife", "Denied", "Toks", "ResvTO", "QuotaDenied",
+         "Txids", "Pays", "Lens", "InboundMTU", "PermSeqs", "DefaultLife", "PermTO", "ChanTO", "MaxLife", "Denied", "Vetoable", "Toks", "ResvTO", "QuotaDenied",
          "MaxDepth"]
 
 for name, c in CFGS.items():
